@@ -70,7 +70,7 @@ theorem iterRemove_refines (it : Iter) (a : ArraySized) (c : Spec.SSeq.Cursor El
     (a.iterRemove it m).1 = c.remove.1 ∧ (a.iterRemove it m).2.1 = c.remove.2.1 ∧
     IterRel (a.iterRemove it m).2.2.1 (a.iterRemove it m).2.2.2.1 c.remove.2.2 ∧
     (a.iterRemove it m).2.2.2.1.Inv ∧ (a.iterRemove it m).2.2.2.2 = m ∧
-    (a.iterRemove it m).2.2.2.1.dataLen = a.dataLen ∧ (a.iterRemove it m).2.2.2.1.grow = a.grow ∧
+    (a.iterRemove it m).2.2.2.1.dataLen = a.dataLen ∧ (a.iterRemove it m).2.2.2.1.cfg = a.cfg ∧
     ((a.iterRemove it m).1 ≠ .ok → (a.iterRemove it m).2.2.2.1 = a ∧ (a.iterRemove it m).2.2.1 = it) := by
   have hsz := rel_size hrel
   obtain ⟨h1, h2, h3⟩ := hrel
@@ -113,9 +113,9 @@ theorem iterRemove_refines (it : Iter) (a : ArraySized) (c : Spec.SSeq.Cursor El
 theorem iterAdd_refines (it : Iter) (a : ArraySized) (c : Spec.SSeq.Cursor Elem) (e : Buf Nat) (m : Mem) (h : a.Inv) (he : e.length = a.dataLen) (hrel : IterRel it a c) :
     ((a.iterAdd it e m).1 = .ok ∧ IterRel (a.iterAdd it e m).2.1 (a.iterAdd it e m).2.2.1 (c.add e) ∧
       (a.iterAdd it e m).2.2.1.Inv ∧ (a.iterAdd it e m).2.2.1.dataLen = a.dataLen ∧
-      (a.iterAdd it e m).2.2.1.grow = a.grow ∧ MemSame m (a.iterAdd it e m).2.2.2) ∨
+      (a.iterAdd it e m).2.2.1.cfg = a.cfg ∧ MemSame a.triple m (a.iterAdd it e m).2.2.2) ∨
     (((a.iterAdd it e m).1 = .errAlloc ∨ (a.iterAdd it e m).1 = .errMaxCapacity) ∧
-      (a.iterAdd it e m).2.1 = it ∧ (a.iterAdd it e m).2.2.1 = a ∧ MemSame m (a.iterAdd it e m).2.2.2) := by
+      (a.iterAdd it e m).2.1 = it ∧ (a.iterAdd it e m).2.2.1 = a ∧ MemSame a.triple m (a.iterAdd it e m).2.2.2) := by
   have hsz := rel_size hrel
   obtain ⟨h1, h2, h3⟩ := hrel
   rcases addAt_spec a e it.index m h he (by omega) with ⟨s1, s2, s3, s4, s5, s6, s7, _⟩ | ⟨s1, s2, s3, _⟩
@@ -139,7 +139,7 @@ theorem iterReplace_refines (it : Iter) (a : ArraySized) (c : Spec.SSeq.Cursor E
     (a.iterReplace it e m).1 = (c.replace e).1 ∧ (a.iterReplace it e m).2.1 = (c.replace e).2.1 ∧
     IterRel it (a.iterReplace it e m).2.2.1 (c.replace e).2.2 ∧ (a.iterReplace it e m).2.2.1.Inv ∧
     (a.iterReplace it e m).2.2.2 = m ∧ (a.iterReplace it e m).2.2.1.dataLen = a.dataLen ∧
-    (a.iterReplace it e m).2.2.1.grow = a.grow := by
+    (a.iterReplace it e m).2.2.1.cfg = a.cfg := by
   have hsz := rel_size hrel
   obtain ⟨h1, h2, h3⟩ := hrel
   rcases eq_nil_or_snoc c.done with hd | ⟨ys, y, hd⟩
@@ -400,7 +400,7 @@ theorem zipIndex_refines (it : Iter) (a1 a2 : ArraySized) (c : Spec.SSeq.ZipCurs
 theorem addAt_room (a : ArraySized) (e : Buf Nat) (index : Nat) (m : Mem) (h : a.Inv)
     (he : e.length = a.dataLen) (hi : index ≤ a.size) (hroom : a.size < a.capacity) :
     (a.addAt e index m).1 = .ok ∧ (a.addAt e index m).2.1.Inv ∧
-    (a.addAt e index m).2.1.abs = a.abs.insertIdx index e ∧ MemSame m (a.addAt e index m).2.2 := by
+    (a.addAt e index m).2.1.abs = a.abs.insertIdx index e ∧ MemSame a.triple m (a.addAt e index m).2.2 := by
   rcases addAt_spec a e index m h he hi with ⟨s1, s2, s3, _, _, _, s7, _⟩ | ⟨_, _, _, s4, _⟩
   · exact ⟨s1, s2, s3, s7⟩
   · omega
@@ -422,11 +422,11 @@ theorem zipAdd_spec (it : Iter) (a1 a2 : ArraySized) (c : Spec.SSeq.ZipCursor El
     ((zipAdd it a1 a2 e1 e2 m).1 = .ok ∧
       ZipRel (zipAdd it a1 a2 e1 e2 m).2.1 (zipAdd it a1 a2 e1 e2 m).2.2.1 (zipAdd it a1 a2 e1 e2 m).2.2.2.1 (c.add e1 e2) ∧
       (zipAdd it a1 a2 e1 e2 m).2.2.1.Inv ∧ (zipAdd it a1 a2 e1 e2 m).2.2.2.1.Inv ∧
-      MemSame m (zipAdd it a1 a2 e1 e2 m).2.2.2.2) ∨
+      Bal m (zipAdd it a1 a2 e1 e2 m).2.2.2.2) ∨
     ((zipAdd it a1 a2 e1 e2 m).1 = .errAlloc ∧
       (zipAdd it a1 a2 e1 e2 m).2.2.1.abs = a1.abs ∧ (zipAdd it a1 a2 e1 e2 m).2.2.2.1.abs = a2.abs ∧
       (zipAdd it a1 a2 e1 e2 m).2.2.1.Inv ∧ (zipAdd it a1 a2 e1 e2 m).2.2.2.1.Inv ∧
-      MemSame m (zipAdd it a1 a2 e1 e2 m).2.2.2.2 ∧
+      Bal m (zipAdd it a1 a2 e1 e2 m).2.2.2.2 ∧
       (zipAdd it a1 a2 e1 e2 m).2.1 = it ∧
       ZipRel (zipAdd it a1 a2 e1 e2 m).2.1 (zipAdd it a1 a2 e1 e2 m).2.2.1 (zipAdd it a1 a2 e1 e2 m).2.2.2.1 c) := by
   have hsz := zrel_size hrel
@@ -453,7 +453,7 @@ theorem zipAdd_spec (it : Iter) (a1 a2 : ArraySized) (c : Spec.SSeq.ZipCursor El
       obtain ⟨u1, u2, u3, u4⟩ := addAt_room b1 e1 it.index m2 p2 (by rw [p5]; exact he1) hi1 (by rw [p4]; exact p8)
       obtain ⟨v1, v2, v3, v4⟩ := addAt_room b2 e2 it.index (b1.addAt e1 it.index m2).2.2 q2
         (by rw [q5]; exact he2) hi2 (by rw [q4]; exact q8)
-      refine ⟨trivial, ⟨?_, ?_, ?_, ?_, h5⟩, u2, v2, MemSame.trans p9 (MemSame.trans q9 (MemSame.trans u4 v4))⟩
+      refine ⟨trivial, ⟨?_, ?_, ?_, ?_, h5⟩, u2, v2, Bal.trans p9.bal (Bal.trans q9.bal (Bal.trans u4.bal v4.bal))⟩
       · rw [u3, p3, h1, Spec.SSeq.ZipCursor.content1, h3, insertIdx_mid]
         simp [Spec.SSeq.ZipCursor.add, Spec.SSeq.ZipCursor.content1]
       · rw [v3, q3, h2, Spec.SSeq.ZipCursor.content2, h3, ← h4, insertIdx_mid]
@@ -463,12 +463,12 @@ theorem zipAdd_spec (it : Iter) (a1 a2 : ArraySized) (c : Spec.SSeq.ZipCursor El
     · right
       have hne : (a2.ensureRoom m1).1 ≠ .ok := by rcases q1 with q1 | q1 <;> rw [q1] <;> simp
       rw [if_pos hne]
-      exact ⟨rfl, p3, by rw [q2], p2, by rw [q2]; exact i2, MemSame.trans p9 q3, rfl,
+      exact ⟨rfl, p3, by rw [q2], p2, by rw [q2]; exact i2, Bal.trans p9.bal q3.bal, rfl,
         ⟨p3.trans h1, by rw [q2]; exact h2, h3, h4, h5⟩⟩
   · right
     have hne : (a1.ensureRoom m).1 ≠ .ok := by rcases p1 with p1 | p1 <;> rw [p1] <;> simp
     rw [if_pos hne]
-    exact ⟨rfl, by rw [p2], rfl, by rw [p2]; exact i1, i2, p3, rfl, ⟨by rw [p2]; exact h1, h2, h3, h4, h5⟩⟩
+    exact ⟨rfl, by rw [p2], rfl, by rw [p2]; exact i1, i2, p3.bal, rfl, ⟨by rw [p2]; exact h1, h2, h3, h4, h5⟩⟩
 
 /-! ### CC_ARRAY_SIZED_FOREACH -/
 theorem foreachGo_spec (a : ArraySized) (m : Mem) (h : a.Inv) :
